@@ -24,7 +24,10 @@ func (f *frame) val(v ssa.Value) Val {
 	if r, ok := f.env[v]; ok {
 		if f.cur != nil {
 			if rf := f.refs[f.cur.Index]; len(rf) > 0 {
-				return refineVal(r, rf)
+				r = refineVal(r, rf)
+			}
+			if fs := f.facts[f.cur.Index]; fs != nil {
+				r = fs.val(r)
 			}
 		}
 		return r
@@ -230,7 +233,11 @@ func (f *frame) evalValue(x ssa.Value, st *State) Val {
 		a := f.val(x.X)
 		switch x.Op {
 		case token.MUL:
-			return in.loadVia(st, a, x.Type())
+			lv := in.loadVia(st, a, x.Type())
+			if fs := f.facts[f.cur.Index]; fs != nil {
+				lv = fs.val(lv)
+			}
+			return lv
 		case token.NOT, token.XOR:
 			if b, ok := asBV(a); ok {
 				return bvNot(b)
